@@ -81,10 +81,12 @@ Qed.
 
 (* a single path segment: what a CID, a peer ID or a metric name must be for the path built by Sprintf to have the
    segments the route expects (go-cid / peer.ID strings always are; a metric name is whatever the caller passes) *)
-Definition plain_seg (s : string) : Prop := s <> "" /\ has_char slash s = false.
+Definition plain_seg (s : string) : Prop := s <> "" /\ has_char slash s = false /\ s <> "." /\ s <> "..".
+(* "." and "..": mux cleanPath would answer 301 (abstract re_redirect, false in renv_of). Other characters are arbitrary: the
+   client escapes the metric name since fix-S27, CIDs and peer IDs are alphanumeric. *)
 
 Lemma plain_seg_eqb s : plain_seg s -> String.eqb s "" = false.
-Proof. intros [H _]. apply String.eqb_neq. exact H. Qed.
+Proof. intros (H & _). apply String.eqb_neq. exact H. Qed.
 
 (* ------------------------------------------------------------------------------------------ *)
 (* the generated client table                                                                 *)
@@ -207,14 +209,14 @@ Ltac seg_one Hns := unfold segments; cbn [append split_on Ascii.eqb Bool.eqb sla
 Lemma R_PeerRm x : plain_seg x ->
   resolve true route_spec "DELETE" (segments ("/peers/" ++ x)) false = MFull RPeerRemove [("peer", x)].
 Proof.
-  intros [Hne Hns]. apply String.eqb_neq in Hne. seg_one Hns.
+  intros (Hne & Hns & _). apply String.eqb_neq in Hne. seg_one Hns.
   route_at 4%nat ("DELETE", [L ""; L "peers"; TVar "peer"], RPeerRemove) Hne Hne.
 Qed.
 
 Lemma R_Pin x : plain_seg x -> x <> "recover" ->
   resolve true route_spec "POST" (segments ("/pins/" ++ x)) false = MFull RPin [("hash", x)].
 Proof.
-  intros [Hne Hns] Hr. apply String.eqb_neq in Hne.
+  intros (Hne & Hns & _) Hr. apply String.eqb_neq in Hne.
   assert (Hr' : String.eqb "recover" x = false) by (apply String.eqb_neq; congruence).
   seg_one Hns. route_at 13%nat ("POST", [L ""; L "pins"; TVar "hash"], RPin) Hne Hr'.
 Qed.
@@ -222,28 +224,28 @@ Qed.
 Lemma R_Unpin x : plain_seg x ->
   resolve true route_spec "DELETE" (segments ("/pins/" ++ x)) false = MFull RUnpin [("hash", x)].
 Proof.
-  intros [Hne Hns]. apply String.eqb_neq in Hne. seg_one Hns.
+  intros (Hne & Hns & _). apply String.eqb_neq in Hne. seg_one Hns.
   route_at 14%nat ("DELETE", [L ""; L "pins"; TVar "hash"], RUnpin) Hne Hne.
 Qed.
 
 Lemma R_Status x : plain_seg x ->
   resolve true route_spec "GET" (segments ("/pins/" ++ x)) false = MFull RStatus [("hash", x)].
 Proof.
-  intros [Hne Hns]. apply String.eqb_neq in Hne. seg_one Hns.
+  intros (Hne & Hns & _). apply String.eqb_neq in Hne. seg_one Hns.
   route_at 12%nat ("GET", [L ""; L "pins"; TVar "hash"], RStatus) Hne Hne.
 Qed.
 
 Lemma R_Allocation x : plain_seg x ->
   resolve true route_spec "GET" (segments ("/allocations/" ++ x)) false = MFull RAllocation [("hash", x)].
 Proof.
-  intros [Hne Hns]. apply String.eqb_neq in Hne. seg_one Hns.
+  intros (Hne & Hns & _). apply String.eqb_neq in Hne. seg_one Hns.
   route_at 7%nat ("GET", [L ""; L "allocations"; TVar "hash"], RAllocation) Hne Hne.
 Qed.
 
 Lemma R_Metrics x : plain_seg x ->
   resolve true route_spec "GET" (segments ("/monitor/metrics/" ++ x)) false = MFull RMetrics [("name", x)].
 Proof.
-  intros [Hne Hns]. apply String.eqb_neq in Hne. seg_one Hns.
+  intros (Hne & Hns & _). apply String.eqb_neq in Hne. seg_one Hns.
   route_at 19%nat ("GET", [L ""; L "monitor"; L "metrics"; TVar "name"], RMetrics) Hne Hne.
 Qed.
 
@@ -251,7 +253,7 @@ Qed.
 Lemma R_Recover x : plain_seg x -> ~ In x ["ipfs"; "ipns"; "ipld"] ->
   resolve true route_spec "POST" (segments ("/pins/" ++ x ++ "/recover")) false = MFull RRecover [("hash", x)].
 Proof.
-  intros [Hne Hns] Hnk. apply String.eqb_neq in Hne.
+  intros (Hne & Hns & _) Hnk. apply String.eqb_neq in Hne.
   assert (Hkt : (String.eqb x "ipfs") || ((String.eqb x "ipns") || ((String.eqb x "ipld") || false)) = false).
   { destruct (String.eqb x "ipfs") eqn:E1; [apply String.eqb_eq in E1; exfalso; apply Hnk; rewrite E1; cbn; auto|].
     destruct (String.eqb x "ipns") eqn:E2; [apply String.eqb_eq in E2; exfalso; apply Hnk; rewrite E2; cbn; auto|].
@@ -301,10 +303,14 @@ Qed.
 (* ------------------------------------------------------------------------------------------ *)
 (* client_faithful                                                                            *)
 (* ------------------------------------------------------------------------------------------ *)
-(* an IPFS path as go-path prints it, up to one trailing '/': "/<ipfs|ipns|ipld>/<rest>", rest non-empty and not ending in '/' *)
+(* an IPFS path as go-path prints it, up to one trailing '/': "/<ipfs|ipns|ipld>/<rest>", rest non-empty, not ending in '/',
+   and canonical: no empty, "." or ".." segment (mux cleanPath answers those with a 301 the client cannot follow for a POST or
+   DELETE; in the model that outcome is the abstract re_redirect, which renv_of sets to false). The characters of rest are otherwise
+   arbitrary: since fix-S27 the client escapes the path and net/url's unescape on the server is its inverse (trusted). *)
+Definition canonical_segs (rest : string) : Prop := forall s, In s (segments rest) -> s <> "" /\ s <> "." /\ s <> "..".
 Definition ipfs_path_ok (p : string) : Prop :=
   exists kt rest, In kt ["ipfs"; "ipns"; "ipld"] /\ trim_slash p = ("/" ++ kt ++ "/" ++ rest)%string /\
-    rest <> "" /\ last_is slash rest = false.
+    rest <> "" /\ last_is slash rest = false /\ canonical_segs rest.
 
 (* the guard: arguments that are what they claim to be as far as the URL path is concerned *)
 Definition client_guard (c : ccall) : Prop :=
@@ -402,7 +408,7 @@ Proof.
     + unfold client_sent, client_op; name_is Hn. cbn. unfold look. cbn [sget]. rewrite String.eqb_refl, Hc, Ho. destruct (cc_local c); reflexivity.
   - (* PinPath *)
     destruct Rpath as [Hrp Ho]; [rewrite <- Hn; cbn; tauto|].
-    destruct Gpath as (p & Hp & kt & rest & Hkt & Ht & Hne & Hl); [rewrite <- Hn; cbn; tauto|].
+    destruct Gpath as (p & Hp & kt & rest & Hkt & Ht & Hne & Hl & _); [rewrite <- Hn; cbn; tauto|].
     specialize (Hrp p Hp).
     eapply arrives_route with (m := "POST") (f := "/pins%s") (loc := false) (args := [trim_slash p]) (h := RPinPath) (vars := [("keyType", kt); ("path", rest)]).
     + name_is Hn; reflexivity.
@@ -415,7 +421,7 @@ Proof.
       destruct (cc_local c); reflexivity.
   - (* UnpinPath *)
     destruct Rpath as [Hrp Ho]; [rewrite <- Hn; cbn; tauto|].
-    destruct Gpath as (p & Hp & kt & rest & Hkt & Ht & Hne & Hl); [rewrite <- Hn; cbn; tauto|].
+    destruct Gpath as (p & Hp & kt & rest & Hkt & Ht & Hne & Hl & _); [rewrite <- Hn; cbn; tauto|].
     specialize (Hrp p Hp).
     eapply arrives_route with (m := "DELETE") (f := "/pins%s") (loc := false) (args := [trim_slash p]) (h := RUnpinPath) (vars := [("keyType", kt); ("path", rest)]).
     + name_is Hn; reflexivity.
@@ -493,6 +499,9 @@ Proof.
     + unfold client_sent; name_is Hn. cbn. rewrite Ha. reflexivity.
 Qed.
 
+Ltac canon_segs := let s := fresh "s" in let Hs := fresh "Hs" in
+  intros s Hs; vm_compute in Hs; repeat (destruct Hs as [Hs|Hs]; [subst s; repeat split; discriminate|]); contradiction.
+
 (* regression of S26 (fixed): PinPath("/ipns/recover") builds POST /pins/ipns/recover, which used to be taken by the
    Recover route (then listed first) with hash = "ipns": 400, nothing arrived. It is within the guard now. *)
 Definition recover_call : ccall := mk_ccall "PinPath" false "" "" (Some "/ipns/recover") "" None (Some ["/ipns/recover"; "o"]).
@@ -509,7 +518,7 @@ Proof.
     split; [intros H; repeat (destruct H as [H|H]; try discriminate); contradiction|].
     split; [intros H; discriminate|]. split; [intros H; discriminate|]. split; [intros H; discriminate|]. split; [intros H; discriminate|].
     split; [|intros H; discriminate].
-    intros _. exists "/ipns/recover". split; [reflexivity|]. exists "ipns", "recover". repeat split; try discriminate. cbn; tauto.
+    intros _. exists "/ipns/recover". split; [reflexivity|]. exists "ipns", "recover". split; [cbn; tauto|]. split; [reflexivity|]. split; [discriminate|]. split; [reflexivity|]. canon_segs.
   - unfold rt_ok. cbn [cc_name recover_call In].
     split; [intros H; repeat (destruct H as [H|H]; try discriminate); contradiction|].
     split; [intros _; split; [intros p Hp; inversion Hp; subst; reflexivity | reflexivity]|].
@@ -526,9 +535,9 @@ Proof.
   cbv zeta. split; [|split].
   - unfold client_guard. cbn [cc_name cc_cid cc_peer cc_mname cc_path cc_filter In]. repeat split;
       try (intros H; repeat (destruct H as [H|H]; try discriminate); contradiction); try discriminate.
-    intros _. exists "/ipfs/QmCid/a/b/". split; [reflexivity|]. exists "ipfs", "QmCid/a/b". repeat split; try discriminate. cbn; tauto.
-  - split; [discriminate | reflexivity].
-  - intros [_ H]. discriminate.
+    intros _. exists "/ipfs/QmCid/a/b/". split; [reflexivity|]. exists "ipfs", "QmCid/a/b". split; [cbn; tauto|]. split; [reflexivity|]. split; [discriminate|]. split; [reflexivity|]. canon_segs.
+  - repeat split; try discriminate.
+  - intros (_ & H & _). discriminate.
 Qed.
 
 (* ------------------------------------------------------------------------------------------ *)
